@@ -29,7 +29,7 @@ ALPHA = {
     "literals-ldx1": (["-literals"], {}, ["-ldflags=-X=main.version=v1"]),
     "literals-ldx2": (["-literals"], {}, ["-ldflags=-X=main.version=v2"]),
 }
-QUICK = ["default", "literals", "seedA", "seedLong1", "seedLong2", "tags", "literals-ldx1", "gogarble-lib"]
+QUICK = ["default", "literals", "seedLong1", "seedLong2", "tags", "literals-ldx1"]
 names = QUICK if tier == "quick" else list(ALPHA)
 
 def sources(state):
